@@ -784,6 +784,50 @@ def repeated_dict_pattern(col, rng):
             judge(col, pat, describe(pat), wrap([full() for _ in range(n)]), 'all-rows-conform')
 
 
+def the_pattern_object_as_target(col):
+    """the rules decide by what the target IS (isinstance for types, the call for callables, == for everything else) - also when the
+    target, or a leaf of it, happens to be the very object the pattern holds at that place"""
+    nan = float('nan')
+
+    class NeverEqual:
+        def __eq__(self, other):
+            return False
+        __hash__ = object.__hash__
+
+    ne = NeverEqual()
+    plist, pdict, ptup = [int], {'k': int}, (int, str)
+    cases = [
+        ('type as its own target', int, int, False), ('type object under object', object, object, True), ('type matches type', type, type, True),
+        ('str type as target', str, str, False), ('predicate as its own target', len, len, False), ('predicate accepting callables', callable, callable, True),
+        ('lambda rejecting everything', nonzero, nonzero, True),
+        ('nan is not equal to itself', nan, nan, False), ('nan in a list', [nan], [nan], False), ('nan as dict value', {'k': nan}, {'k': nan}, False),
+        ('never-equal object', ne, ne, False), ('never-equal object in a tuple', (1, ne), (1, ne), False),
+        ('list pattern as its own target', plist, plist, False), ('dict pattern as its own target', pdict, pdict, False),
+        ('tuple pattern as its own target', ptup, ptup, False), ('the type inside Or', Or(str, int), int, False),
+        ('the type inside And', And(object, int), int, False), ('type as dict value', {'t': int}, {'t': int}, False),
+        ('equal constants stay accepted', 'abc', 'abc', True), ('same list of constants', [1, 'a'], [1, 'a'], None),
+    ]
+    for desc, pat, target, want in cases:
+        if want is None:
+            # ([1, 'a'] as a pattern means "items equal to 1 or to 'a'")
+            want = True
+        m = Match(pat)
+        outcomes = {'glom': call(G, target, m), 'matches': call(m.matches, target), 'verify': call(m.verify, target),
+                    'default': call(G, target, Match(pat, default=SENT))}
+        col.case(('pattern-object-as-target', desc), True)
+        col.count('conforming_targets' if want else 'rejected_targets')
+        if want:
+            ok = outcomes['glom'].ok and outcomes['matches'].ok and outcomes['matches'].value is True and outcomes['verify'].ok and \
+                outcomes['default'].ok and outcomes['default'].value is not SENT
+        else:
+            ok = (not outcomes['glom'].ok) and isinstance(outcomes['glom'].exc, MatchError) and outcomes['matches'].ok and outcomes['matches'].value is False and \
+                (not outcomes['verify'].ok) and outcomes['default'].ok and outcomes['default'].value is SENT
+        if not ok:
+            col.violation('C09/target-that-is-the-pattern-object-itself:' + ('rejected-though-conforming' if want else 'accepted-though-not-conforming'),
+                          '%s: Match(%s) on the same object: %s; it %s' % (desc, short(repr(pat), 80), {k: repr(v)[:80] for k, v in outcomes.items()},
+                                                                        'conforms' if want else 'does not conform (not an instance of itself / the call is falsy / not == itself)'), None)
+
+
 def run(ctx):
     col, rng = ctx.col, ctx.rng
     col.require('conforming_targets', 300)
@@ -793,5 +837,6 @@ def run(ctx):
     if ctx.shard == 0:
         repeated_dict_pattern(col, rng)
         optional_defaults_and_compound_keys(col)
+        the_pattern_object_as_target(col)
     for i in range(ctx.n(1200, 15000)):
         one_pattern(col, rng)
